@@ -185,6 +185,8 @@ def install(e) -> None:  # e: Engine
         except AssertionError:
             raise OutOfSubset("re.compile of a symbolic pattern")
         fl = flags.obj if isinstance(flags, VConst) else 0
+        if not isinstance(fl, int):
+            raise OutOfSubset(f"re.compile flags {fl!r}")
         return VConst(("regex", text, fl))
 
     def regex_search(it: Interp, rx: V, s: V, pos: V = None) -> V:  # type: ignore
@@ -197,7 +199,16 @@ def install(e) -> None:  # e: Engine
     e.re_stub = {"compile": ("pyfn", None), "MULTILINE": "MULTILINE"}
 
     def mk_re_module() -> V:
-        return VConst({"compile": VConst(re_compile), "MULTILINE": VConst("MULTILINE")})
+        import re as _re
+        d = {"compile": VConst(re_compile)}
+        for nm in ("MULTILINE", "M", "ASCII", "A", "IGNORECASE", "I", "DOTALL", "S", "UNICODE", "U", "VERBOSE", "X"):
+            d[nm] = VConst(int(getattr(_re, nm)))
+        return VConst(d)
+
+    def flag_or(it: Interp, a: V, b: V) -> V:
+        return VConst(a.obj | b.obj)  # type: ignore
+
+    e.binop_hooks["Const.BitOr"] = flag_or
 
     def mk_io_module() -> V:
         return VConst({"StringIO": VConst(("class", "StringIO", {}))})
